@@ -60,8 +60,35 @@ pub fn to_writer<W: Write, T: Serialize>(w: W, v: &T) -> Result<(), Error> {
 /// `names`: struct names are written and checked on the way back (as RON with `struct_names`, or XML-like
 /// formats, do), so a `Serialize`/`Deserialize` pair that disagrees on the type's name fails.
 pub fn to_writer_opt<W: Write, T: Serialize>(w: W, v: &T, names: bool) -> Result<(), Error> {
-    let mut s = Ser { w, names };
+    let mut s = Ser { w, names, text: false };
     v.serialize(&mut s)
+}
+
+/// The HUMAN-READABLE variant: `is_human_readable()` is true and every number travels as text (as in
+/// query-string, INI, XML or CSV style formats); `deserialize_any` on a scalar hands the visitor a string.
+pub fn to_writer_text<W: Write, T: Serialize>(w: W, v: &T) -> Result<(), Error> {
+    let mut s = Ser { w, names: false, text: true };
+    v.serialize(&mut s)
+}
+
+pub fn to_vec_text<T: Serialize>(v: &T) -> Result<Vec<u8>, Error> {
+    let mut out = Vec::new();
+    to_writer_text(&mut out, v)?;
+    Ok(out)
+}
+
+pub fn from_reader_text<R: Read, T: de::DeserializeOwned>(r: R) -> Result<T, Error> {
+    let mut d = De { r, names: false, text: true };
+    let v = T::deserialize(&mut d)?;
+    let mut probe = [0u8; 1];
+    loop {
+        match d.r.read(&mut probe) {
+            Ok(0) => return Ok(v),
+            Ok(_) => return Err(Error("trailing bytes".into())),
+            Err(e) if e.kind() == std::io::ErrorKind::Interrupted => {}
+            Err(e) => return Err(Error(e.to_string())),
+        }
+    }
 }
 
 pub fn to_vec_opt<T: Serialize>(v: &T, names: bool) -> Result<Vec<u8>, Error> {
@@ -81,7 +108,7 @@ pub fn from_reader<R: Read, T: de::DeserializeOwned>(r: R) -> Result<T, Error> {
 }
 
 pub fn from_reader_opt<R: Read, T: de::DeserializeOwned>(r: R, names: bool) -> Result<T, Error> {
-    let mut d = De { r, names };
+    let mut d = De { r, names, text: false };
     let v = T::deserialize(&mut d)?;
     // the whole input must have been consumed
     let mut probe = [0u8; 1];
@@ -101,7 +128,7 @@ pub fn from_slice<T: de::DeserializeOwned>(b: &[u8]) -> Result<T, Error> {
 
 /// `Deserialize::deserialize_in_place` into an existing value.
 pub fn from_slice_in_place<T: de::DeserializeOwned>(b: &[u8], place: &mut T) -> Result<(), Error> {
-    let mut d = De { r: b, names: false };
+    let mut d = De { r: b, names: false, text: false };
     de::Deserialize::deserialize_in_place(&mut d, place)
 }
 
@@ -110,6 +137,7 @@ pub fn from_slice_in_place<T: de::DeserializeOwned>(b: &[u8], place: &mut T) -> 
 pub struct Ser<W: Write> {
     w: W,
     names: bool,
+    text: bool,
 }
 
 impl<W: Write> Ser<W> {
@@ -140,6 +168,12 @@ impl<'a, W: Write> ser::Serializer for &'a mut Ser<W> {
     type SerializeStructVariant = ser::Impossible<(), Error>;
 
     fn serialize_f64(self, v: f64) -> Result<(), Error> {
+        if self.text {
+            // Rust's shortest round-trip rendering ("inf", "-inf", "-0.0", "5e-324", ...)
+            let t = format!("{v:?}");
+            write_all(&mut self.w, &(t.len() as u64).to_le_bytes())?;
+            return write_all(&mut self.w, t.as_bytes());
+        }
         write_all(&mut self.w, &v.to_bits().to_le_bytes())
     }
     fn serialize_u64(self, v: u64) -> Result<(), Error> {
@@ -201,7 +235,7 @@ impl<'a, W: Write> ser::Serializer for &'a mut Ser<W> {
         Err(Error("positional format: enums not supported".into()))
     }
     fn is_human_readable(&self) -> bool {
-        false
+        self.text
     }
 }
 
@@ -251,6 +285,7 @@ impl<'a, W: Write> ser::SerializeStruct for &'a mut Ser<W> {
 pub struct De<R: Read> {
     r: R,
     names: bool,
+    text: bool,
 }
 
 impl<R: Read> De<R> {
@@ -267,6 +302,15 @@ impl<R: Read> De<R> {
             }
         }
         Ok(())
+    }
+    fn token(&mut self) -> Result<String, Error> {
+        let len = self.u64()?;
+        if len > 64 {
+            return Err(Error("absurd number-token length".into()));
+        }
+        let mut b = vec![0u8; len as usize];
+        read_exact(&mut self.r, &mut b)?;
+        String::from_utf8(b).map_err(|e| Error(e.to_string()))
     }
     fn u64(&mut self) -> Result<u64, Error> {
         let mut b = [0u8; 8];
@@ -302,9 +346,22 @@ macro_rules! unsupported_de {
 
 impl<'de, 'a, R: Read> de::Deserializer<'de> for &'a mut De<R> {
     type Error = Error;
-    unsupported_de!(deserialize_any, deserialize_bool, deserialize_i8, deserialize_i16, deserialize_i32, deserialize_u8, deserialize_u16, deserialize_u32, deserialize_char, deserialize_str, deserialize_string, deserialize_bytes, deserialize_byte_buf, deserialize_map, deserialize_identifier, deserialize_ignored_any);
+    fn deserialize_any<V: Visitor<'de>>(self, v: V) -> Result<V::Value, Error> {
+        if self.text {
+            // a text format does not know the type of a scalar: the visitor gets the string
+            let t = self.token()?;
+            return v.visit_str(&t);
+        }
+        Err(Error("positional format: deserialize_any not supported".into()))
+    }
+    unsupported_de!(deserialize_bool, deserialize_i8, deserialize_i16, deserialize_i32, deserialize_u8, deserialize_u16, deserialize_u32, deserialize_char, deserialize_str, deserialize_string, deserialize_bytes, deserialize_byte_buf, deserialize_map, deserialize_identifier, deserialize_ignored_any);
 
     fn deserialize_f64<V: Visitor<'de>>(self, v: V) -> Result<V::Value, Error> {
+        if self.text {
+            let t = self.token()?;
+            let x: f64 = t.parse().map_err(|_| Error(format!("not a number: {t}")))?;
+            return v.visit_f64(x);
+        }
         let b = self.u64()?;
         v.visit_f64(f64::from_bits(b))
     }
@@ -361,7 +418,7 @@ impl<'de, 'a, R: Read> de::Deserializer<'de> for &'a mut De<R> {
         Err(Error("positional format: enums not supported".into()))
     }
     fn is_human_readable(&self) -> bool {
-        false
+        self.text
     }
 }
 
